@@ -10,6 +10,7 @@ import (
 
 	"github.com/thushan/olla/internal/adapter/proxy/core"
 	"github.com/thushan/olla/internal/logger"
+	"github.com/thushan/olla/internal/verifhook"
 )
 
 // streamState manages the state during streaming
@@ -83,6 +84,9 @@ func (s *Service) checkContexts(clientCtx, upstreamCtx context.Context, readDead
 
 // processStreamData reads from upstream and writes to client
 func (s *Service) processStreamData(resp *http.Response, buffer []byte, state *streamState, w http.ResponseWriter, isStreaming bool, rc *http.ResponseController, rlog logger.StyledLogger, afterRead func()) error {
+	if verifhook.Enabled {
+		verifhook.Fault("proxy.stream")
+	}
 	n, err := resp.Body.Read(buffer)
 	if afterRead != nil {
 		afterRead()
